@@ -205,7 +205,9 @@ def gen_case(r, maxports=4, globs=True, allow_collisions=True):
                 else:
                     leaves[G + ('c%d' % c, 'bd', 'x')] = fresh()
                     leaves[G + ('c%d' % c, 'y')] = fresh()
-                    owned.add(G + ('c%d' % c, 'bd', 'x'))
+                    if r.random() < 0.5:
+                        # (otherwise the re-mapped node exists only through the glob's sub-schema and sub-topology)
+                        owned.add(G + ('c%d' % c, 'bd', 'x'))
             if sub == 'leaf':
                 schema[port] = {'*': {'_default': 7}}
                 topo[port] = list(rel_path(ploc, G))
